@@ -19,7 +19,8 @@ from . import base
 ID = "C15"
 LEVEL = "fault_enumeration"
 RULE = (
-    "crash points = (fault kind in {RuntimeError, MemoryError, ENOSPC, KeyboardInterrupt}) x (stage-boundary point in "
+    "the first runs of every batch ENUMERATE every stage-boundary crash point of a bounded family (k 1..3 x N 1..5 x point x step x "
+    "{error, cancel} x output location; see enumerated_crash_points); the remaining runs are seeded samples: crash points = (fault kind in {RuntimeError, MemoryError, ENOSPC, KeyboardInterrupt}) x (stage-boundary point in "
     "{update.before, update.after, save.before, save.after} or line-level pre-emption point inside update / frame-writer functions) "
     "x (stage, step) of bounded runs (Engine B stub physics and Engine A), x output path shape / None x pre-existing files x "
     "pause answers; seeded sampling, one fault per run; non-trivial = the fault fired inside an in-flight run (update or writer "
@@ -40,12 +41,30 @@ UPDATE_FUNCS_STUB = ["append"]
 UPDATE_FUNCS_REAL = [f for f, r in TRACE_FUNCS.items() if r == "update"]
 
 
+# every stage-boundary crash point of a bounded family of runs, enumerated by the first GRID_SIZE runs
+GRID = [
+    (k, N, point, step, kind, explicit)
+    for k in (1, 2, 3)
+    for N in (1, 2, 3, 4, 5)
+    for point in ("update.before", "update.after", "save.before", "save.after")
+    for step in range(0, N + 1)
+    for kind in ("exc", "sigint")
+    for explicit in (False, True)
+    if not (point.startswith("update") and step == N)  # no update is started at the final step
+]
+GRID_SIZE = len(GRID)
+
+
 def gen(seed, idx, tier):
     rnd = substream(seed, idx, "c15")
-    engine_a = rnd.random() < 0.15
+    cell = GRID[idx] if idx < GRID_SIZE else None
+    engine_a = cell is None and rnd.random() < 0.15
     k = rnd.randint(1, 5)
     N = rnd.randint(1, 9)
     therm = rnd.random() < 0.3
+    if cell is not None:
+        k, N = cell[0], cell[1]
+        therm = False
     if engine_a:
         dev = scen.gen_device(rnd, size="small", n_terminals=rnd.choice([0, 2]), n_probes=rnd.choice([0, 2]), length_units="um")
         dt = rnd.choice([0.01, 0.05])
@@ -133,6 +152,16 @@ def gen(seed, idx, tier):
                 kind = "exc"
         at = {"point": "line", "func": func, "frac": rnd.random(), "stage": stage}
     scn["faults"] = [] if rnd.random() < 0.03 else [{"kind": kind, "at": at}]
+    if cell is not None:
+        # fixed known-good geometry, no pause, empty directory: only the crash point varies
+        scn["device"]["film"] = {"kind": "box", "w": 4.13, "h": 3.07, "npts": 14}
+        scn["device"]["layer"] = {"xi": 0.5, "lam": 2.0, "d": 0.1, "u": 5.79, "gamma": 1.0, "z0": 0.0}
+        scn["device"]["probes"] = [[-1.2, 0.8], [1.2, 0.8]]
+        scn["options"]["pause_on_interrupt"] = False
+        scn["observer"] = {"output": {"path": "out.h5", "absolute": True} if cell[5] else None, "preexisting": {}, "answers": []}
+        scn["faults"] = [{"kind": cell[4], "at": {"point": cell[2], "stage": "S", "step": cell[3]}}]
+        scn["meta"] = {"k": k, "N": N, "engine": "B", "grid_cell": idx}
+        return scn
     if scn["faults"] and rnd.random() < 0.12 and not pause:
         # fault sequence: a cancellation inside the update at a step that is not a multiple of k,
         # then a second fault while the final frame is being saved
@@ -416,7 +445,10 @@ def run(scn):
                 h.probe("stale_tmp")
             if scn["observer"].get("preexisting"):
                 h.probe("name_collision")
-            return base.summarize(scn, h, Vd, fi is not None and region in ("update", "writer"), sig, extra=extra)
+            res = base.summarize(scn, h, Vd, fi is not None and region in ("update", "writer"), sig, extra=extra)
+            res["grid_cell"] = scn.get("meta", {}).get("grid_cell")
+            res["fired"] = fi is not None
+            return res
         finally:
             sim.cleanup()
     finally:
@@ -461,4 +493,15 @@ def evidence_extra(results):
     import collections
 
     st = collections.Counter(r["stats"].get("status") for r in results if r["discard"] is None)
-    return {"fault_status": dict(st)}
+    cells = {r["grid_cell"]: r for r in results if r.get("grid_cell") is not None and r["discard"] is None}
+    fired = sum(1 for r in cells.values() if r.get("fired"))
+    return {
+        "fault_status": dict(st),
+        "enumerated_crash_points": {
+            "cells": GRID_SIZE,
+            "executed_and_checked": len(cells),
+            "fault_fired": fired,
+            "complete": len(cells) == GRID_SIZE,
+            "dimensions": "k {1,2,3} x N {1..5} x point {update.before, update.after, save.before, save.after} x step 0..N x {RuntimeError, KeyboardInterrupt} x output {temp dir, explicit path}; a save.* point fires only at steps where a frame is written",
+        },
+    }
